@@ -42,7 +42,7 @@ func c14genPlan(rt *rapid.T) c14plan {
 	for i := 0; i < n; i++ {
 		id++
 		c := rapid.IntRange(0, p.NClients-1).Draw(rt, fmt.Sprintf("c%d", i))
-		k := rapid.SampledFrom([]string{"getmsgs", "getmsgs", "biglist", "pm-victim", "pm-victim", "broadcast", "newsget", "userlist", "keepalive", "chat", "postboard", "clientinfo", "clientinfo", "invite", "fileinfo"}).Draw(rt, fmt.Sprintf("k%d", i))
+		k := rapid.SampledFrom([]string{"getmsgs", "getmsgs", "biglist", "pm-victim", "pm-victim", "broadcast", "newsget", "userlist", "keepalive", "chat", "postboard", "clientinfo", "clientinfo", "invite", "fileinfo", "acct-stale-rename", "acct-create", "acct-create", "acct-delete"}).Draw(rt, fmt.Sprintf("k%d", i))
 		t := hlref.Tran{ID: id}
 		big := func(label string) []byte {
 			return bytes.Repeat([]byte{byte('A' + i%26)}, rapid.SampledFrom([]int{100, 33000, 40000, 60000}).Draw(rt, label))
@@ -66,6 +66,14 @@ func c14genPlan(rt *rapid.T) c14plan {
 			t.Type, t.Fields = hlref.TranInviteNewChat, []hlref.Field{fld(hlref.FUserID, hlref.BE16((c+1)%p.NClients+1))}
 		case "fileinfo":
 			t.Type, t.Fields = hlref.TranGetFileInfo, []hlref.Field{sfld(hlref.FFileName, "many")}
+		case "acct-stale-rename": // the batch editor renaming an account that does not exist (any more) to a login that is taken
+			t.Type, t.Fields = hlref.TranUpdateUser, []hlref.Field{fld(hlref.FData, hlref.EncodeFields([]hlref.Field{fld(hlref.FData, hlref.Obfuscate([]byte("ghost"))),
+				fld(hlref.FUserLogin, hlref.Obfuscate([]byte("admin"))), sfld(hlref.FUserName, "n"), fld(hlref.FUserAccess, make([]byte, 8)), fld(hlref.FUserPassword, []byte{0})}))}
+		case "acct-create": // several administrators creating the same login: one wins, each is answered once
+			t.Type, t.Fields = hlref.TranUpdateUser, []hlref.Field{fld(hlref.FData, hlref.EncodeFields([]hlref.Field{
+				fld(hlref.FUserLogin, hlref.Obfuscate([]byte("dup"))), sfld(hlref.FUserName, "n"), fld(hlref.FUserAccess, make([]byte, 8)), fld(hlref.FUserPassword, hlref.Obfuscate([]byte("p")))}))}
+		case "acct-delete":
+			t.Type, t.Fields = hlref.TranDeleteUser, []hlref.Field{fld(hlref.FUserLogin, hlref.Obfuscate([]byte("dup")))}
 		case "keepalive":
 			t.Type = hlref.TranKeepAlive
 		case "chat":
